@@ -586,6 +586,9 @@ class Function(ClassOrFunc):
         def scan(children):
             for element in children:
                 if element.type in ('classdef', 'funcdef', 'lambdef'):
+                    # The body is a different scope, but defaults, annotations
+                    # and base classes are evaluated in this one.
+                    yield from scan(element.children[:-1])
                     continue
 
                 try:
@@ -599,7 +602,9 @@ class Function(ClassOrFunc):
                 else:
                     yield from scan(nested_children)
 
-        return scan(self.children)
+        # Only the body: the own defaults and annotations belong to the
+        # enclosing scope.
+        return scan(self.children[-1:])
 
     def iter_return_stmts(self):
         """
